@@ -94,9 +94,11 @@ func (w *World) CheckIdentity(o *Obs, prop string) []Violation {
 		}
 		for _, f := range sdl.SortedKeys(o.Points[h]) {
 			for _, obj := range o.Points[h][f] {
-				if w.componentOf(obj) == h && obj != h {
+				if w.componentOf(obj) == h && obj != h && w.substitutedAroundInit(h) {
 					// the holder holds an early proxy of itself (self-reference through a
-					// substitute): not judged, see DESIGN.md section 13
+					// substitute) and is substituted again around initialization: not judged,
+					// see DESIGN.md section 13. With an early substitute only, the proxy the
+					// holder received is a version like any other.
 					continue
 				}
 				see(obj, h+"."+f)
@@ -342,6 +344,28 @@ func (w *World) CheckByName(out *Outcome, o *Obs) []Violation {
 	if out.Verdict == Rejected {
 		if o.Panic != "" && !o.RegPanic && !strings.Contains(o.Panic, "duplicate") {
 			vs = append(vs, v("C07", "duplicate-name-other-panic", out.Why, "duplicate registration led to an unrelated panic: "+o.Panic))
+		}
+		// a rejected registration leaves the name with the component registered first
+		if o.RegPanic && o.RegOwner != nil {
+			pos := map[string]int{}
+			for k, id := range o.RegOrder {
+				pos[id] = k + 1
+			}
+			for _, n := range w.Duplicates() {
+				owner, ok := o.RegOwner[n]
+				if !ok {
+					continue
+				}
+				first := ""
+				for _, id := range w.ByName[n] {
+					if pos[id] != 0 && (first == "" || pos[id] < pos[first]) {
+						first = id
+					}
+				}
+				if first != "" && owner != first {
+					vs = append(vs, v("C07", "rejected-duplicate-took-the-name", n, fmt.Sprintf("the registration of a second component under %q was rejected, yet the registry now holds %s under that name instead of %s, which was registered first", n, owner, first)))
+				}
+			}
 		}
 		if o.OK() {
 			// accepted only if exactly one owner of the name is visible everywhere
@@ -633,6 +657,19 @@ func hasMultiCandidatePoint(out *Outcome) bool {
 // replacedBeforeInstantiation: a post-processor supplies another object instead of
 // instantiating / populating the registered one; the registered object's fields are then
 // never touched by the container.
+// substitutedAroundInit: some processor substitutes the component in a before/after
+// initialization callback.
+func (w *World) substitutedAroundInit(id string) bool {
+	for _, pr := range w.P.Procs {
+		for _, r := range pr.Rules {
+			if r.Target == id && (r.At == sdl.CbBefore || r.At == sdl.CbAfter) {
+				return true
+			}
+		}
+	}
+	return false
+}
+
 func (w *World) replacedBeforeInstantiation(id string) bool {
 	for _, pr := range w.P.Procs {
 		for _, r := range pr.Rules {
